@@ -53,8 +53,74 @@ def cases(tier, seed):
                 other = FIELDSETS[(fi + 3) % len(FIELDSETS)]
                 d2 = dict(meshes[(mi + 1) % len(meshes)])
                 d2.update({"fields": other, "time": times[(k + 1) % len(times)], "seed": seed + 1, "payload": "signed"})
-                out.append({"desc": d, "desc2": d2, "triples": third})
+                out.append({"desc": d, "desc2": d2, "triples": third, "names": NAMES[k % len(NAMES)]})
+    # NaN in the per-box tables of level 0 only / of the finer levels only: whatever the table shows for NaN, it must not
+    # depend on WHICH level holds it
+    for nd in (2, 3):
+        for mesh in scope.named_meshes(nd)[1:]:
+            d = dict(mesh)
+            d.update(list(scope.geometries(nd))[seed % 6])
+            d.update({"fields": ["temp", "density", "Z"], "seed": seed, "payload": ["nanlv0", "signed", "nanlv0"]})
+            d2 = dict(d, payload=["nanlv1", "signed", "nanlv1"])
+            out.append({"desc": d, "desc2": d2, "nanpair": True, "names": NAMES[0]})
     return out
+
+
+# directory names: plain, with dots after a common stem, a dotted copy next to the plain name
+NAMES = [("plt00010", "plt00020"), ("plt_t0.25", "plt_t0.50"), ("plt00100.old", "plt00100")]
+
+
+def minmax_rows(text):
+    L = text.split("\n")
+    for i, l in enumerate(L):
+        if "Fields' Mins and Maxs:" in l:
+            caps = [j for j in range(i, len(L)) if L[j].startswith("+")]
+            if len(caps) >= 3:
+                rows = {}
+                for l2 in L[caps[1] + 1:caps[2]]:
+                    for half in l2.split("\t"):
+                        m = ROW.match(half.strip())
+                        if m:
+                            rows[m.group(1)] = (m.group(2), m.group(3))
+                return rows
+    return None
+
+
+def run_nanpair(case, workdir, rec):
+    from amr_kitchen.menu import Menu
+    pristine = copy.deepcopy(Menu.field_info)
+    shown = {}
+    for tag, d in (("nan_in_level_0", case["desc"]), ("nan_in_finer_levels", case["desc2"])):
+        path, ref = build(d, workdir, "plt_" + tag)
+        Menu.field_info = copy.deepcopy(pristine)
+        st, val, text = run_menu(path, True, False)
+        rec.exe([h64(d), "nanpair", tag])
+        if st == "exc":
+            rec.fail("menu_raised", {"tool": "menu", "min_max": True, "nan": tag}, exc_text(val))
+            return
+        rows = minmax_rows(text)
+        if rows is None:
+            rec.fail("menu_no_minmax_table", {"nan": tag}, text[-200:])
+            return
+        shown[tag] = rows
+        # the NaN-free field is exact
+        pp = ParsedPlot(path)
+        mn = min(float(pp.levels[lv].mins[b][1]) for lv in range(pp.finest + 1) for b in range(pp.levels[lv].nboxes))
+        mx = max(float(pp.levels[lv].maxs[b][1]) for lv in range(pp.finest + 1) for b in range(pp.levels[lv].nboxes))
+        got = rows.get("density")
+        if got is None or not (same_value(float(got[0]), float("%.3g" % mn)) and same_value(float(got[1]), float("%.3g" % mx))):
+            rec.fail("menu_minmax_values", {"nan": tag, "field": "density"}, "printed %r, header tables give %r" % (got, (mn, mx)))
+    Menu.field_info = pristine
+    for f in ("temp", "Z"):
+        a, b = shown["nan_in_level_0"].get(f), shown["nan_in_finer_levels"].get(f)
+        if a is None or b is None:
+            rec.fail("menu_minmax_row_missing", {"field": f}, "%r %r" % (a, b))
+            continue
+        ca = tuple("nan" in x.lower() for x in a)
+        cb = tuple("nan" in x.lower() for x in b)
+        if ca != cb:
+            rec.fail("menu_nan_depends_on_level", {"field": f},
+                     "NaN in the tables of level 0 is shown as %r, NaN in the tables of a finer level as %r" % (a, b))
 
 
 class Captured(object):
@@ -175,9 +241,13 @@ def run_case(case, workdir):
     import amr_kitchen.minuterie as minuterie
     import amr_kitchen.marinate as marinate
     rec = Rec()
+    if case.get("nanpair"):
+        run_nanpair(case, workdir, rec)
+        rec.sample({"desc": case["desc"], "nan_pair": True})
+        return rec.result()
     desc, desc2 = case["desc"], case["desc2"]
-    path, ref = build(desc, workdir, "plt00010")
-    path2, ref2 = build(desc2, workdir, "plt00020")
+    path, ref = build(desc, workdir, case["names"][0])
+    path2, ref2 = build(desc2, workdir, case["names"][1])
     pp = ParsedPlot(path)
     dh = h64([desc, desc2])
     pristine = copy.deepcopy(Menu.field_info)
@@ -244,6 +314,12 @@ def run_case(case, workdir):
         with vpool.controlled():
             st, val = call(marinate.main)
     rec.exe([dh, "marinate"])
+    if st != "exc" and ref2.ndims == 3:
+        # the second plotfile of the directory is marinated too: each plotfile has its own pickle
+        with Captured(["marinate", path2]) as cB:
+            with vpool.controlled():
+                call(marinate.main)
+        rec.exe([dh, "marinate_sibling"])
     if st == "exc":
         if ref.ndims == 3:
             rec.fail("marinate_raised", {}, exc_text(val))
